@@ -75,6 +75,8 @@ fn_names_that_imply_windowed_situation = {
     "row_number",
     "shift",
     "size",
+    "_size",
+    "_count",
     "std",
     "sum",
     "tail",
